@@ -3,6 +3,8 @@ import ALV.Model.C04
 import ALV.Spec.C04
 import ALV.Spec.C04Hist
 import ALV.Model.C04Cx
+import ALV.Model.C04Mem
+import ALV.Spec.C04Ext
 namespace ALV.Driver.C04
 open ALV ALV.J ALV.C04
 
@@ -132,6 +134,23 @@ def getCoefArg (j : Json) : Except String (CoefArg α) := do
     | some c => (CoefArg.number <$> cd.get c)
     | none => (CoefArg.list <$> getList cd.get (← field j "list"))
 
+/-- how an ITERATOR memory is read at the call (`readMem`): items kept, items pulled, the next two items the
+caller can still get; a callable memory: the sizes it is asked for -/
+def memReadJson (zero : α) (lm : Nat) (mem : Mem α) : List (String × Json) :=
+  (match mem.src with
+   | none => []
+   | some s =>
+     let r := readMem lm s
+     [("memread", Json.mkObj [("kept", putList cd r.1), ("pulled", natToJson r.2.1),
+        ("next", putList cd (Src.peek 2 r.2.2)), ("mem", putList cd (memoryFromSrc zero lm s))])])
+  ++ [("asked", arr natToJson (memAsked lm mem))]
+
+/-- the free response, shown when the numerator is zero and there is feedback -/
+def freeJson (b a : List α) (memory : List α) (n : Nat) : List (String × Json) :=
+  if b.all (fun c => c == 0) && !(a.tail.all (fun c => c == 0)) then
+    [("free", putList cd (freeResp a.tail (a.headD 0) memory n))]
+  else []
+
 def errJson' (e : Err) : Json := Json.mkObj [("err", Json.str e.name)]
 
 /-- one call; the arguments "den", "mem", "zero" may be left out (call shapes) -/
@@ -182,7 +201,9 @@ def handleCall (j : Json) : Except String Json := do
         Json.mkObj ((if fast then [] else [("out", putList cd out)]) ++
                     [("ir", irJsonOf cd (compile b a zero)),
                      ("b", putList cd b), ("a", putList cd a),
-                     ("mem", putList cd (memoryOf zero (a.length - 1) mem))])
+                     ("mem", putList cd (memoryOf zero (a.length - 1) mem))]
+                    ++ memReadJson cd zero (a.length - 1) mem
+                    ++ freeJson cd b a (memoryOf zero (a.length - 1) mem) xs.length)
   let spec : Json :=
     match (if raw then specCallRaw num den mem zero xs else specCallD num denO memO zeroO xs) with
     | .error e => errJson' e
@@ -217,6 +238,67 @@ def handleCompile (j : Json) : Except String Json := do
   let zero ← cd.get (← field j "zero")
   pure <| Json.mkObj [("ir", irJsonOf cd (compile b a zero))]
 
+/-! histories, generic in the number codec (entries "hist" over ℚ and "ghist" over ℚ(i)) -/
+def getOpOf (j : Json) : Except String (HOp α) := do
+  match j with
+  | Json.arr (Json.str "nums" :: c :: v :: []) => pure (.setNums (← getNat c) (← getList cd.get v))
+  | Json.arr (Json.str "coefs" :: c :: v :: []) => pure (.setCoefs (← getNat c) (← getList (getPairOf cd) v))
+  | Json.arr (Json.str "build" :: f :: n :: d :: []) => pure (.build (← getNat f) (← getNat n) (← getNat d))
+  | Json.arr (Json.str "call" :: s :: f :: x :: m :: z :: []) =>
+    let mem ← match m with
+      | Json.null => pure none
+      | m => (some <$> getNat m)
+    pure (.call (← getNat s) (← getNat f) (← getNat x) mem (← cd.get z))
+  | Json.arr (Json.str "take" :: s :: k :: []) => pure (.take (← getNat s) (← getNat k))
+  | _ => throw s!"unknown history op {j.compress}"
+
+def obsJsonOf (extra : List (String × Json)) : HObs α → Json
+  | .stored => Json.mkObj [("k", Json.str "stored")]
+  | .ok => Json.mkObj ([("k", Json.str "ok")] ++ extra)
+  | .err e => Json.mkObj [("k", Json.str "err"), ("err", Json.str e.name)]
+  | .unbound => Json.mkObj [("k", Json.str "unbound")]
+  | .outs ys ended => Json.mkObj [("k", Json.str "outs"), ("ys", putList cd ys), ("ended", Json.bool ended)]
+
+/-- what the model generates at a successful call (shown for the structural tie T3) -/
+def callExtraOf (st : HState α (Terms α × Terms α) (Gen α)) : HOp α → List (String × Json)
+  | .call _ f _ mem zero =>
+    match st.filts f with
+    | some o =>
+      let a := dense o.2
+      let b := dense o.1
+      [("ir", irJsonOf cd (compile b a zero)), ("b", putList cd b), ("a", putList cd a),
+       ("mem", putList cd (memoryOf zero (a.length - 1) (memArg st.nums mem)))]
+    | none => []
+  | _ => []
+
+def histModelJsonOf : HState α (Terms α × Terms α) (Gen α) → List (HOp α) → List Json
+  | _, [] => []
+  | st, op :: ops =>
+    let r := hstep modelImpl st op
+    obsJsonOf cd (callExtraOf cd st op) r.1 :: histModelJsonOf r.2 ops
+
+/-- what the specification's stream has been delivered so far (shown after a request, for the
+rounding-error bound of the float regime) -/
+def seenExtraOf (st : HState α (SFilt α) (SStrm α)) : HOp α → List (String × Json)
+  | .take s _ =>
+    match st.strms s with
+    | some t => [("seen", putList cd t.gen.seen)]
+    | none => []
+  | _ => []
+
+def histSpecJsonOf : HState α (SFilt α) (SStrm α) → List (HOp α) → List Json
+  | _, [] => []
+  | st, op :: ops =>
+    let r := hstep specImpl st op
+    (match obsJsonOf cd [] r.1 with
+      | Json.obj kv => Json.obj (kv ++ seenExtraOf cd r.2 op)
+      | j => j) :: histSpecJsonOf r.2 ops
+
+def handleHist (j : Json) : Except String Json := do
+  let ops ← getList (getOpOf cd) (← field j "ops")
+  pure <| Json.mkObj [("model", Json.arr (histModelJsonOf cd HState.empty ops)),
+                      ("spec", Json.arr (histSpecJsonOf cd HState.empty ops))]
+
 end generic
 
 def getPair (j : Json) : Except String (Int × Rat) := getPairOf ratCodec j
@@ -227,69 +309,12 @@ def irJson (ir : IR Rat) : Json := irJsonOf ratCodec ir
 
 def errJson (e : Err) : Json := Json.mkObj [("err", Json.str e.name)]
 
-def getOp (j : Json) : Except String (HOp Rat) := do
-  match j with
-  | Json.arr (Json.str "nums" :: c :: v :: []) => pure (.setNums (← getNat c) (← getList getRat v))
-  | Json.arr (Json.str "coefs" :: c :: v :: []) => pure (.setCoefs (← getNat c) (← getList getPair v))
-  | Json.arr (Json.str "build" :: f :: n :: d :: []) => pure (.build (← getNat f) (← getNat n) (← getNat d))
-  | Json.arr (Json.str "call" :: s :: f :: x :: m :: z :: []) =>
-    let mem ← match m with
-      | Json.null => pure none
-      | m => (some <$> getNat m)
-    pure (.call (← getNat s) (← getNat f) (← getNat x) mem (← getRat z))
-  | Json.arr (Json.str "take" :: s :: k :: []) => pure (.take (← getNat s) (← getNat k))
-  | _ => throw s!"unknown history op {j.compress}"
-
-def obsJson (extra : List (String × Json)) : HObs Rat → Json
-  | .stored => Json.mkObj [("k", Json.str "stored")]
-  | .ok => Json.mkObj ([("k", Json.str "ok")] ++ extra)
-  | .err e => Json.mkObj [("k", Json.str "err"), ("err", Json.str e.name)]
-  | .unbound => Json.mkObj [("k", Json.str "unbound")]
-  | .outs ys ended => Json.mkObj [("k", Json.str "outs"), ("ys", rats ys), ("ended", Json.bool ended)]
-
-/-- what the model generates at a successful call (shown for the structural tie T3) -/
-def callExtra (st : HState Rat (Terms Rat × Terms Rat) (Gen Rat)) : HOp Rat → List (String × Json)
-  | .call _ f _ mem zero =>
-    match st.filts f with
-    | some o =>
-      let a := dense o.2
-      let b := dense o.1
-      [("ir", irJson (compile b a zero)), ("b", rats b), ("a", rats a),
-       ("mem", rats (memoryOf zero (a.length - 1) (memArg st.nums mem)))]
-    | none => []
-  | _ => []
-
-def histModelJson : HState Rat (Terms Rat × Terms Rat) (Gen Rat) → List (HOp Rat) → List Json
-  | _, [] => []
-  | st, op :: ops =>
-    let r := hstep modelImpl st op
-    obsJson (callExtra st op) r.1 :: histModelJson r.2 ops
-
-/-- what the specification's stream has been delivered so far (shown after a request, for the
-rounding-error bound of the float regime) -/
-def seenExtra (st : HState Rat (SFilt Rat) (SStrm Rat)) : HOp Rat → List (String × Json)
-  | .take s _ =>
-    match st.strms s with
-    | some t => [("seen", rats t.gen.seen)]
-    | none => []
-  | _ => []
-
-def histSpecJson : HState Rat (SFilt Rat) (SStrm Rat) → List (HOp Rat) → List Json
-  | _, [] => []
-  | st, op :: ops =>
-    let r := hstep specImpl st op
-    (match obsJson [] r.1 with
-      | Json.obj kv => Json.obj (kv ++ seenExtra r.2 op)
-      | j => j) :: histSpecJson r.2 ops
-
 def handle (entry : String) (j : Json) : Except String Json := do
   match entry with
   | "call" => handleCall ratCodec j
   | "gcall" => handleCall gaussCodec j
-  | "hist" =>
-    let ops ← getList getOp (← field j "ops")
-    pure <| Json.mkObj [("model", Json.arr (histModelJson HState.empty ops)),
-                        ("spec", Json.arr (histSpecJson HState.empty ops))]
+  | "hist" => handleHist ratCodec j
+  | "ghist" => handleHist gaussCodec j
   | "cascade" => handleCascade ratCodec j
   | "gcascade" => handleCascade gaussCodec j
   | "compile" => handleCompile ratCodec j
